@@ -1,6 +1,195 @@
-(* C08 - property theorems only. *)
+(* C08 - property theorems only (statements over the model in C08_Model).
+   Domain: [wf_content] = rows match variants and samples, variant IDs unique;
+   [wf_query] = the ID restriction is a set (duplicate-free). *)
 From HV Require Import Prelude C07_Model C07_Check C07_Proofs C08_Model C08_Check C08_Proofs.
 
-Theorem C08_memZ_In : forall x l, memZ x l = true <-> In x l.
-Proof. exact memZ_In. Qed.
-Print Assumptions C08_memZ_In.
+(* core: VCF.  A restricted read returns exactly the full read filtered in file
+   order (rows by region overlap and ID membership, columns by sample membership),
+   for every content, region, sample set, ID set and max_variants; with an empty
+   match the result is Ok (an empty object), not an error.  The early exit of the ID
+   filter and the preallocation to len(variants) never lose a record. *)
+Theorem C08_read_restricted_eq_subset_vcf :
+  forall c q,
+  wf_content c -> wf_query q -> g_samples c <> [] -> g_variants c <> [] ->
+  selected_samples c q <> [] \/ select in_region_vcf q (combine (g_variants c) (g_rows c)) = [] ->
+  exists full, vcf_read_q c q_all = Ok full /\ vcf_read_q c q = Ok (restrict_vcf q full).
+Proof. exact read_restricted_eq_subset_vcf. Qed.
+Print Assumptions C08_read_restricted_eq_subset_vcf.
+
+(* core: PGEN, for every pgenlib behaviour and every chunk size >= 1 or None *)
+Theorem C08_read_restricted_eq_subset_pgen :
+  forall pload c q chunk,
+  wf_content c -> wf_query q -> chunk_dom chunk -> g_samples c <> [] ->
+  selected_samples c q <> [] ->
+  exists full, pgen_read_q pload false chunk c q_all = Ok full
+            /\ pgen_read_q pload false chunk c q = Ok (restrict_pgen q full).
+Proof. exact read_restricted_eq_subset_pgen. Qed.
+Print Assumptions C08_read_restricted_eq_subset_pgen.
+
+(* the closed forms behind them: which samples and records a query selects *)
+Theorem C08_vcf_read_spec :
+  forall c q, wf_content c -> wf_query q ->
+  let m := keep_mask (q_samples q) (g_samples c) in
+  let samples' := mask m (g_samples c) in
+  let sel := select in_region_vcf q (combine (g_variants c) (g_rows c)) in
+  samples' <> [] \/ sel = [] ->
+  vcf_read_q c q = Ok (vcf_result m samples' (take_q q sel))
+  /\ vcf_iter_q c q = Ok (samples', map (fun r : vrec => (fst r, mask m (snd r))) sel).
+Proof. exact vcf_read_spec. Qed.
+Print Assumptions C08_vcf_read_spec.
+
+Theorem C08_pgen_read_spec :
+  forall pload c q chunk, wf_content c -> wf_query q -> chunk_dom chunk ->
+  let m := keep_mask (q_samples q) (g_samples c) in
+  let samples' := mask m (g_samples c) in
+  let sel := select in_region_pgen q (combine (g_variants c) (g_rows c)) in
+  samples' <> [] ->
+  pgen_read_q pload false chunk c q = Ok (pgen_result pload m samples' (take_q q sel))
+  /\ pgen_iter_q pload false c q
+     = Ok (samples', map (fun r : vrec => (fst r, map (load_call pload) (to_stored (mask m (snd r))))) sel).
+Proof. exact pgen_read_spec. Qed.
+Print Assumptions C08_pgen_read_spec.
+
+Theorem C08_legacy_pgen_empty_refuted :
+  pgen_read_q pload_std true None c_one q_noids = Err E_Value
+  /\ pgen_read_q pload_std false None c_one q_noids = Ok (mkg [0] [] [] [1; 0; 3])
+  /\ vcf_read_q c_one q_noids = Ok (mkg [0] [] [] [0; 0; 0]).
+Proof. exact legacy_pgen_empty_refuted. Qed.
+Print Assumptions C08_legacy_pgen_empty_refuted.
+
+Theorem C08_legacy_pgen_iter_empty_refuted :
+  pgen_iter_q pload_std true c_empty q_all = Err E_Runtime
+  /\ pgen_iter_q pload_std false c_empty q_all = Ok ([0; 1], [])
+  /\ vcf_iter_q c_empty q_all = Ok ([0; 1], [])
+  /\ pgen_read_q pload_std true None c_empty q_all = Ok (mkg [0; 1] [] [] [2; 0; 3]).
+Proof. exact legacy_pgen_iter_empty_refuted. Qed.
+Print Assumptions C08_legacy_pgen_iter_empty_refuted.
+
+(* core: subset returns the requested samples / variants in the requested order,
+   unknown names dropped; it is total on objects with unique names *)
+Theorem C08_subset_order :
+  forall g S V g', subset g S V = Ok g' ->
+  g_samples g' = match S with
+                 | None => g_samples g
+                 | Some S' => filter (fun s => memZ s (g_samples g)) S' end
+  /\ map v_id (g_variants g') = match V with
+                                | None => map v_id (g_variants g)
+                                | Some V' => filter (fun v => memZ v (map v_id (g_variants g))) V' end.
+Proof. exact subset_order. Qed.
+Print Assumptions C08_subset_order.
+
+Theorem C08_subset_total :
+  forall g S V, nodupb (g_samples g) = true -> nodupb (map v_id (g_variants g)) = true ->
+  exists g', subset g S V = Ok g'.
+Proof. exact subset_total. Qed.
+Print Assumptions C08_subset_total.
+
+(* extended: the streaming iterator yields the records of the bulk read *)
+Theorem C08_iter_eq_read_vcf :
+  forall c q, wf_content c -> wf_query q ->
+  selected_samples c q <> [] \/ select in_region_vcf q (combine (g_variants c) (g_rows c)) = [] ->
+  exists samples' recs g,
+    vcf_iter_q c q = Ok (samples', recs) /\ vcf_read_q c q = Ok g
+    /\ g_samples g = samples' /\ g_variants g = map fst (take_q q recs)
+    /\ (g_rows g = map snd (take_q q recs) \/ (g_rows g = [] /\ (samples' = [] \/ take_q q recs = []))).
+Proof. exact iter_eq_read_vcf. Qed.
+Print Assumptions C08_iter_eq_read_vcf.
+
+Theorem C08_iter_eq_read_pgen :
+  forall pload c q chunk,
+  wf_content c -> wf_query q -> chunk_dom chunk -> selected_samples c q <> [] ->
+  exists samples' recs g,
+    pgen_iter_q pload false c q = Ok (samples', recs) /\ pgen_read_q pload false chunk c q = Ok g
+    /\ g_samples g = samples' /\ g_variants g = map fst (take_q q recs)
+    /\ g_rows g = map snd (take_q q recs).
+Proof. exact iter_eq_read_pgen. Qed.
+Print Assumptions C08_iter_eq_read_pgen.
+
+(* extended: max_variants = m returns the first m matching variants *)
+Theorem C08_max_variants_prefix_vcf :
+  forall c q, wf_content c -> wf_query q -> selected_samples c q <> [] -> q_ids q = None ->
+  exists g g0, vcf_read_q c q = Ok g /\ vcf_read_q c (q_nomax q) = Ok g0
+    /\ g_samples g = g_samples g0
+    /\ g_variants g = take (q_max q) (g_variants g0)
+    /\ (g_rows g = take (q_max q) (g_rows g0) \/ g_rows g = []).
+Proof. exact max_variants_prefix_vcf. Qed.
+Print Assumptions C08_max_variants_prefix_vcf.
+
+Theorem C08_max_variants_prefix_pgen :
+  forall pload c q chunk,
+  wf_content c -> wf_query q -> chunk_dom chunk -> selected_samples c q <> [] ->
+  q_ids q = None ->
+  exists g g0, pgen_read_q pload false chunk c q = Ok g
+    /\ pgen_read_q pload false chunk c (q_nomax q) = Ok g0
+    /\ g_samples g = g_samples g0
+    /\ g_variants g = take (q_max q) (g_variants g0)
+    /\ g_rows g = take (q_max q) (g_rows g0).
+Proof. exact max_variants_prefix_pgen. Qed.
+Print Assumptions C08_max_variants_prefix_pgen.
+
+(* extended: VCF and PGEN files with the same content load alike: same samples,
+   same variants, same allele indices and missing calls, same phase of every
+   heterozygous call - for every pgenlib meeting the C07 contract, every query
+   whose region either has no start or meets only one-base REF alleles *)
+Theorem C08_vcf_pgen_same_content :
+  forall pload c q chunk,
+  pload_contract pload -> wf_content c -> wf_query q -> chunk_dom chunk ->
+  geno_domb false c = true -> g_variants c <> [] -> selected_samples c q <> [] ->
+  region_comparable c q ->
+  exists gv gp, vcf_read_q c q = Ok gv /\ pgen_read_q pload false chunk c q = Ok gp
+    /\ g_samples gv = g_samples gp /\ g_variants gv = g_variants gp
+    /\ (Forall2 (Forall2 (call_equiv 3)) (g_rows gv) (g_rows gp)
+        \/ (g_rows gv = [] /\ g_variants gv = [])).
+Proof. exact vcf_pgen_same_content. Qed.
+Print Assumptions C08_vcf_pgen_same_content.
+
+(* the two scans are the same filter as the specification's *)
+Theorem C08_pvar_scan_select :
+  forall reg V recs, pvar_scan reg V recs = filter (sel_pred in_region_pgen reg V) recs.
+Proof. exact pvar_scan_select. Qed.
+Print Assumptions C08_pvar_scan_select.
+
+Theorem C08_vcf_records_select :
+  forall c q,
+  NoDup (map v_id (g_variants c)) -> length (g_rows c) = length (g_variants c) ->
+  (forall V, q_ids q = Some V -> NoDup V) ->
+  vcf_records c q = select in_region_vcf q (combine (g_variants c) (g_rows c)).
+Proof. exact vcf_records_select. Qed.
+Print Assumptions C08_vcf_records_select.
+
+(* soundness of the boolean checkers evaluated on the implementation's output *)
+Theorem C08_holds_fmt_sound :
+  forall q fo full,
+  holds_fmt q fo = true -> fo_full fo = Ok full ->
+  let m := keep_mask (q_samples q) (g_samples full) in
+  mask m (g_samples full) <> [] ->
+  exists rd isamples irecs,
+    fo_read fo = Ok rd /\ fo_iter fo = Ok (isamples, irecs)
+    /\ g_samples rd = mask m (g_samples full)
+    /\ g_variants rd = map fst (expected q full rd)
+    /\ (expected q full rd = [] -> g_rows rd = [] /\ fo_warned fo = true)
+    /\ (expected q full rd <> [] -> g_rows rd = map (fun x : vrec => mask m (snd x)) (expected q full rd))
+    /\ isamples = mask m (g_samples full)
+    /\ map fst (take_q q irecs) = g_variants rd
+    /\ (take_q q irecs = [] \/ map snd (take_q q irecs) = g_rows rd).
+Proof. exact holds_fmt_sound. Qed.
+Print Assumptions C08_holds_fmt_sound.
+
+Theorem C08_holds_subset_sound :
+  forall k, holds_subset k = true -> subset_dom (sc_g k) = true ->
+  exists g', sc_obs k = Ok g'
+    /\ g_samples g' = match sc_S k with
+                      | None => g_samples (sc_g k)
+                      | Some S' => filter (fun s => memZ s (g_samples (sc_g k))) S' end
+    /\ map v_id (g_variants g') = match sc_V k with
+                      | None => map v_id (g_variants (sc_g k))
+                      | Some V' => filter (fun v => memZ v (map v_id (g_variants (sc_g k)))) V' end.
+Proof. exact holds_subset_sound. Qed.
+Print Assumptions C08_holds_subset_sound.
+
+(* the hypotheses are satisfiable *)
+Theorem C08_hypotheses_satisfiable :
+  wf_content c_one /\ wf_query q_noids /\ g_samples c_one <> [] /\ g_variants c_one <> []
+  /\ selected_samples c_one q_noids <> [].
+Proof. exact read_hypotheses_satisfiable. Qed.
+Print Assumptions C08_hypotheses_satisfiable.
